@@ -26,6 +26,7 @@ Cases:
   `dynraw T V`     → `<content hex>` | `err K`   (`write_size = false` at the top level)
   `big blob n`     → `ok <len>` | `err SizeOverflow`  (size check only)
   `conv K n…`      → the driver's conversion between an external-crate value (given by components) and a core carrier
+  `tdeciter E T <hex>` → what `ListlikeIterator<E>` / `VectorIterator<E>` / `MapIterator<E,E>` / `UdtIterator` yield
   `tdec C T <hex>` → `<embedding of the decoded Rust value>` | `err K` | `no-typecheck` (typed deserializer)
   `carrierser C T V` → `<cell hex>` | `err K` (carriers without a `DeserializeValue` impl)
 -/
@@ -311,6 +312,10 @@ def parseCarriers : Nat → Nat → List String → Option (List Carrier × List
     | some (c, r) => (parseCarriers fuel n r).map fun (cs, r2) => (c :: cs, r2)
 end
 
+/-- `hset_*` / `hmap_*` carriers are the hash family, everything else B-tree. -/
+def flavourOf (name : String) : Flavour :=
+  if name.startsWith "hset" || name.startsWith "hmap" then .hash else .btree
+
 def carrierOfName (name : String) : Option Carrier :=
   let toks := name.splitOn "_"
   match parseCarrier (toks.length + 1) toks with
@@ -492,7 +497,7 @@ def run (case _impl : String) : String :=
         | some (.error e) => "err " ++ serErrName e
         | some (.ok cell) =>
           -- the carrier's own bytes through the TYPED deserializer (`TypedDecode.deserCarrier`)
-          toHex cell ++ " => " ++ (match typedRead utf8ok c t cell with
+          toHex cell ++ " => " ++ (match typedRead utf8ok (flavourOf name) c t cell with
             | none => "no-typecheck"
             | some (.error e) => "err " ++ deErrName e
             | some (.ok x) => " ".intercalate (showVal (embed c x)))
@@ -549,6 +554,46 @@ def run (case _impl : String) : String :=
     | some sc, some b => runBigDecimal sc b
     | _, _ => "bad-case"
   | "conv" :: rest => runConv rest
+  | "tdeciter" :: elem :: rest =>
+    -- the lazy iterators used directly: what they yield = the loops of the model, without `collect()`
+    match parseTy fuel rest, carrierOfName elem with
+    | some (t, r), some c =>
+      let cell : Option (Option (List UInt8)) := match r with
+        | ["null"] => some none
+        | [h] => (parseHex h).map some
+        | _ => none
+      match cell with
+      | none => "bad-case"
+      | some o =>
+        match t with
+        | .list _ | .set _ | .vector _ _ =>
+          if tcheck (.vec c) t then
+            match deserCarrier utf8ok .btree (.vec c) t o with
+            | .error e => "err " ++ deErrName e
+            | .ok x => " ".intercalate (showVal (embed (.vec c) x))
+          else "no-typecheck"
+        | .map kt vt =>
+          if tcheck c kt && tcheck c vt then
+            match o with
+            | none => "map 0"
+            | some bs =>
+              match readCount bs with
+              | .error e => "err " ++ deErrName e
+              | .ok (n, rest) =>
+                match mapG (fun o => deserCarrier utf8ok .btree c kt o) (fun o => deserCarrier utf8ok .btree c vt o) n rest with
+                | .error e => "err " ++ deErrName e
+                | .ok kvs => " ".intercalate (showVal (.map (kvs.map (fun kv => (embed c kv.1, embed c kv.2)))))
+          else "no-typecheck"
+        | .udt _ _ fields =>
+          match o with
+          | none => "err ExpectedNonNull"
+          | some bs =>
+            match udtIterG fields.length bs with
+            | .error e => "err " ++ deErrName e
+            | .ok fs => " ".intercalate ("udtiter" :: fs.map (fun f => match f with
+                | .missing => "missing" | .null => "null" | .bytes b => toHex b))
+        | _ => "no-typecheck"
+    | _, _ => "bad-case"
   | "tdec" :: name :: rest =>
     -- the typed deserializer of carrier `name` on an arbitrary cell body
     match parseTy fuel rest, carrierOfName name with
@@ -561,7 +606,7 @@ def run (case _impl : String) : String :=
       | none => "bad-case"
       | some o =>
         if tcheck c t then
-          match deserCarrier utf8ok c t o with
+          match deserCarrier utf8ok (flavourOf name) c t o with
           | .error e => "err " ++ deErrName e
           | .ok x => " ".intercalate (showVal (embed c x))
         else "no-typecheck"
